@@ -496,6 +496,24 @@ Section Shot.
   Definition shoot (src : Src) (steps : list (Req * Z)) (w : W) : list event * W * outcome :=
     run 0 steps {| t_src := src; t_req := [] |} [] w.
 
+  (* The scenario-level pause min_waiting_time.  ScenarioGun.shoot: startAt := time.Now() before
+     the first step; after the LAST step succeeded: spent := time.Since(startAt);
+     if ammo.MinWaitingTime > spent { time.Sleep(ammo.MinWaitingTime - spent) }.
+     A failing step returns before this point.  The clock is an oracle of the world. *)
+  Variable o_elapsed : W -> Z.                       (* time.Since(startAt) when the loop is done *)
+
+  Definition min_wait_sleep (minw spent : Z) : Z :=
+    if (spent <? minw)%Z then (minw - spent)%Z else 0%Z.
+
+  Definition shoot_timed (src : Src) (steps : list (Req * Z)) (minw : Z) (w : W)
+    : list event * W * outcome * Z :=
+    let '(evs, w1, out) := shoot src steps w in
+    (evs, w1, out,
+     match out with
+     | Done => min_wait_sleep minw (o_elapsed w1)
+     | FailedAt _ _ => 0%Z
+     end).
+
   (* ---- observation helpers ---- *)
   Definition ev_index (e : event) : nat :=
     match e with
@@ -773,7 +791,13 @@ Definition c_shoot := shoot cworld csrc creq crend cresp bytes cq_name c_pre c_r
 Definition cevent := event csrc crend bytes.
 
 (* ---- construction of the provider's ammo: decodeAmmo ---- *)
-Record cscen := { sc_name : bytes; sc_weight : Z; sc_shoots : list bytes }.
+Record cscen := { sc_name : bytes; sc_weight : Z; sc_shoots : list bytes;
+                  sc_minwait : Z }.                  (* min_waiting_time, ms *)
+
+(* MinWaitingTime of the ammo the gun receives for scenario number si: convertScenarioToAmmo
+   sets it, Scenario.Clone (called by Provider.Acquire) copies it *)
+Definition ammo_minwait (scs : list cscen) (si : nat) : Z :=
+  nth si (map sc_minwait scs) 0%Z.
 
 Inductive build_res :=
 | BuildPanic
